@@ -1501,7 +1501,15 @@ static int process_rpc_service(fb_parser_t *P, fb_compound_type_t *ct)
             continue;
         }
         if (member->type.type != vt_type_ref) {
-            error_sym(P, sym, "internal error: request type expected to be a type reference");
+            /* The parser accepts any type here: scalars, strings and vectors have no reference to look up. */
+            error_sym(P, sym, "rpc response type must reference a table");
+            member->type.type = vt_invalid;
+            continue;
+        }
+        if (member->req_type.type != vt_type_ref) {
+            error_sym(P, sym, "rpc request type must reference a table");
+            member->type.type = vt_invalid;
+            continue;
         }
         type_sym = lookup_type_reference(P, ct->scope, member->req_type.ref);
         if (!type_sym) {
